@@ -130,7 +130,7 @@ func VerifH_C06_send() {
 // true is returned the peer has been told the stream is over (END_STREAM on a
 // DATA frame, or RST_STREAM).
 //
-//verif:harness prop=C06 unwind=8 timeout=600 use=vStubDataSetDataAlias
+//verif:harness prop=C06 unwind=8 timeout=600 timeoutT=4000 use=vStubDataSetDataAlias
 func VerifH_C06_stream() {
 	sc := vNewServerConn()
 	strm := &Stream{id: 1, state: StreamStateHalfClosed, responded: true, headersFinished: true}
